@@ -30,9 +30,10 @@ const (
 	foNone
 	foError
 	foNever
+	foErrorWithResp // sets a response and then fails (e.g. forward ok, a later step of the sub-sequence errors)
 )
 
-var foNames = []string{"answer", "no-answer", "error", "never"}
+var foNames = []string{"answer", "no-answer", "error", "never", "error-after-setting-a-response"}
 
 type c20side struct {
 	Outcome int
@@ -104,6 +105,9 @@ func c20Exec(side *c20side, who string) execFunc {
 		r.SetReply(qc.Q())
 		r.Answer = append(r.Answer, &dns.TXT{Hdr: dns.RR_Header{Name: qc.QQuestion().Name, Rrtype: dns.TypeTXT, Class: 1, Ttl: 60}, Txt: []string{"from=" + who}})
 		qc.SetResponse(r)
+		if side.Outcome == foErrorWithResp {
+			return errors.New("scripted " + who + " error after setting a response")
+		}
 		return nil
 	}
 }
@@ -117,8 +121,8 @@ func c20Main(rc *RunCtx) {
 	delays := []time.Duration{0, time.Millisecond, T / 2, T - time.Nanosecond, T, T + time.Nanosecond, T + time.Millisecond, 2 * T, 3 * T}
 	for i := 0; i < c.calls && rc.Viol == nil; i++ {
 		cl := &c20call{tc: -1, ctxKind: "none"}
-		cl.p.Outcome = simrt.S.Rng().Weighted(5, 2, 2, 1)
-		cl.s.Outcome = simrt.S.Rng().Weighted(5, 2, 2, 1)
+		cl.p.Outcome = simrt.S.Rng().Weighted(5, 2, 2, 1, 1)
+		cl.s.Outcome = simrt.S.Rng().Weighted(5, 2, 2, 1, 1)
 		cl.p.Delay = delays[simrt.Choose(len(delays))]
 		cl.s.Delay = delays[simrt.Choose(len(delays))]
 		fb := fallback.NewFallbackForVerif(c20Exec(&cl.p, "p"), c20Exec(&cl.s, "s"), c.thrMs, c.standby)
@@ -190,6 +194,9 @@ func c20Check(rc *RunCtx, c *c20cfg, cl *c20call, T time.Duration) {
 	// primary
 	tp := cl.t0 + cl.p.Delay
 	op := cl.p.Outcome
+	if op == foErrorWithResp {
+		op = foError // an error is a failure, whatever was left in the context
+	}
 	if d := workerDdl(cl.t0); op == foNever || tp > d {
 		tp, op = d, foError
 	} else if tp == d && op == foAnswer {
@@ -252,6 +259,9 @@ func c20Check(rc *RunCtx, c *c20cfg, cl *c20call, T time.Duration) {
 	}
 	tsC := ts + cl.s.Delay
 	os := cl.s.Outcome
+	if os == foErrorWithResp {
+		os = foError
+	}
 	if d := workerDdl(ts); os == foNever || tsC > d {
 		tsC, os = d, foError
 	} else if tsC == d && os == foAnswer {
